@@ -88,7 +88,7 @@ def job_hist(spec, res):
         for _ in range(r0.randint(0, 2)):
             a = rand_web_lru(r0)
             a = b"".join(stems_of(a)[: r0.randint(2, 4)])
-            rules[a] = RX[r0.choice(["path1", "path2", "subdomain", "domain"])]
+            rules[a] = RX[r0.choice(["path1", "path2", "subdomain", "domain", "lowerpath1"])]
         cfg["rules"] = rules
     run = H.Run(cfg)
     known = set()
